@@ -40,6 +40,11 @@ def spec_check(g, pred, succ, ev):
             return f"successors[{d.name}] is not the transpose"
     if ev["pulses"] != g.pulses:
         return "pulse list changed"
+    # one split event per parent (a deme ends once; `Spec.specSplits`, theorem events_spec): all children of a parent
+    # that start at its end are grouped in it, however the demes are listed
+    parents = [s.parent for s in ev["splits"]]
+    if len(set(parents)) != len(parents):
+        return f"several split events for one parent: {sorted(p for p in set(parents) if parents.count(p) > 1)}"
     seen = {}
     for s in ev["splits"]:
         for c in s.children:
